@@ -1426,3 +1426,49 @@ Proof.
   split; [exact selectedb_Selected|]. split; [exact refersb_Refers|].
   split; [exact sel_pats_HasSel | exact unmatchedb_Unmatched].
 Qed.
+
+(* ====================== M. validator objects that live across rules and across runs ====================== *)
+Lemma finalize_ikey insts : Forall (fun i => ikey i = None) (finalize insts).
+Proof.
+  apply Forall_forall. intros i H. unfold finalize in H. apply in_flat_map in H.
+  destruct H as (x & _ & H). eapply v_finalize_ikey. exact H.
+Qed.
+
+Lemma run_insts_fst E rules insts : map fst (run_insts E rules insts) = map fst insts.
+Proof. unfold run_insts. rewrite map_map. reflexivity. Qed.
+
+(* What a validator reports for a rule depends on that rule alone: not on the rules validated
+   before by the same validator objects, not on an earlier run of the same SigmaValidator.  The
+   issues of both calls consist of the same per-rule part (the issues each rule gets from each
+   validator that runs on it, see rule_part) followed by finalisation issues only. *)
+Theorem second_run_per_rule E vs rules l1 l2 :
+  validate_twice E vs rules = Ok (l1, l2) ->
+  exists F1 F2,
+    l1 = flat_map (rule_part E vs) rules ++ F1 /\ l2 = flat_map (rule_part E vs) rules ++ F2 /\
+    Forall (fun i => ikey i = None) F1 /\ Forall (fun i => ikey i = None) F2.
+Proof.
+  unfold validate_twice. intros H.
+  destruct (validate_loop_char E rules (map (fun v => (v, s_init)) vs)) as [A1 A2].
+  rewrite map_fst_init in A1, A2.
+  destruct (all_ok E vs rules) eqn:Ea.
+  - rewrite (A1 eq_refl) in H. simpl in H.
+    destruct (validate_loop_char E rules (run_insts E rules (map (fun v => (v, s_init)) vs))) as [B1 _].
+    rewrite run_insts_fst, map_fst_init in B1. rewrite (B1 Ea) in H. simpl in H. inversion H; subst.
+    eexists _, _. split; [reflexivity|]. split; [reflexivity|]. split; apply finalize_ikey.
+  - exfalso. specialize (A2 eq_refl).
+    destruct (validate_loop E (map (fun v => (v, s_init)) vs) rules) as [x| |]; simpl in H; try discriminate.
+    exact (A2 x eq_refl).
+Qed.
+
+(* the issues one rule gets do not depend on the other rules of the collection *)
+Theorem rule_part_alone E vs rules l r :
+  validate E vs rules = Ok l -> In r rules ->
+  validate E vs [r] = Ok (rule_part E vs r ++ final_part E vs [r]) /\
+  (forall i, In i (rule_part E vs r) -> In i l).
+Proof.
+  intros H Hr. apply validate_ok in H. destruct H as [Hok ->]. split.
+  - destruct (validate_char E vs [r]) as [V _]. rewrite V.
+    + unfold pure_validate. simpl. rewrite app_nil_r. reflexivity.
+    + unfold all_ok in *. simpl. rewrite andb_true_r. rewrite forallb_forall in Hok. apply Hok. exact Hr.
+  - intros i Hi. unfold pure_validate. apply in_or_app. left. apply in_flat_map. exists r. auto.
+Qed.
